@@ -239,11 +239,25 @@ VQ_OP(cx_copy)  { auto x = t.vecT<Cx>(); auto y = t.vecT<Cx>(); be::copy(x, y); 
 VQ_OP(cx_clear) { auto x = t.vecT<Cx>(); be::clear(x); return vq::show(x); }
 VQ_OP(cx_inner) { auto x = t.vecT<Cx>(); auto y = t.vecT<Cx>(); Cx r = be::inner_product(x, y); return vq::show(r); }
 
+// blocks of complex numbers: std::vector<static_matrix<std::complex<double>,b,1>> holding the numbers of a complex vector of length
+// n*b; backend::inner_product must equal the scalar complex inner product of the flattened data (conjugate on the SECOND argument)
+template <int N> static std::string cxb_inner(const std::vector<Cx> &x, const std::vector<Cx> &y) {
+    typedef amgcl::static_matrix<Cx, N, 1> R;
+    if (x.size() % N || x.size() != y.size()) return "UNSUPPORTED";
+    std::vector<R> X(x.size() / N), Y(x.size() / N);
+    for (size_t i = 0; i < X.size(); ++i) for (int k = 0; k < N; ++k) { X[i](k) = x[i * N + k]; Y[i](k) = y[i * N + k]; }
+    Cx r = be::inner_product(X, Y); Cx e = amgcl::math::inner_product(X.empty() ? R() : X[0], Y.empty() ? R() : Y[0]);
+    return vq::show(r) + " " + vq::show(X.empty() ? Cx(0) : e);
+}
+VQ_OP(cxb_inner) { long b = t.i(); auto x = t.vecT<Cx>(); auto y = t.vecT<Cx>();
+    return b == 2 ? cxb_inner<2>(x, y) : b == 3 ? cxb_inner<3>(x, y) : b == 4 ? cxb_inner<4>(x, y) : std::string("UNSUPPORTED"); }
+
 int main() {
     // "cx_name" handlers are published as "cx.name"
     auto &r = vq::registry();
     std::vector<std::string> names;
     for (auto &kv : r) if (kv.first.compare(0, 3, "cx_") == 0) names.push_back(kv.first);
     for (auto &n : names) { r["cx." + n.substr(3)] = r[n]; r.erase(n); }
+    if (r.count("cxb_inner")) { r["cxb.inner"] = r["cxb_inner"]; r.erase("cxb_inner"); }
     return vq::driver_main();
 }
